@@ -234,7 +234,7 @@ impl Decl {
 
 const WORDS: [&str; 10] = ["Get", "Set", "Led", "Adc", "Run", "Stop", "Item", "Mode", "Pin", "Log"];
 const FIELD_NAMES: [&str; 12] = ["alpha", "beta", "gamma", "delta", "eps", "zeta", "eta", "theta", "iota_x", "kappa_y", "lam", "mu_nu_xi"];
-const NAME_SYL: [&str; 12] = ["a", "b", "c", "d", "g", "s", "t", "é", "ж", "go", "st", "€"];
+const NAME_SYL: [&str; 14] = ["a", "b", "c", "d", "g", "s", "t", "é", "ж", "go", "st", "€", "Up", "x_y"];
 
 fn kebab_of_camel(id: &str) -> String {
     let mut s = String::new();
@@ -338,7 +338,7 @@ fn gen_fields(rng: &mut Rng, uid: &mut usize, allow_positional: bool, rich: bool
             let which = rng.below(3); // 0 both, 1 long only, 2 short only
             if which != 2 {
                 if rng.chance(35) {
-                    let cand = format!("{}{}", *rng.pick(&["opt", "конф", "x-y", "é"]), *uid);
+                    let cand = format!("{}{}", *rng.pick(&["opt", "конф", "x-y", "é", "dry_run", "noCache", "X", "a.b"]), *uid);
                     *uid += 1;
                     long = Some(cand);
                     long_explicit = true;
